@@ -36,6 +36,19 @@ impl LogRng {
                 }
             }
             4 => self.counter.wrapping_mul(0x0101_0101_0101_0101),
+            6 => {
+                // landmark draws: half of the draws make the uniform f64 that `rand` derives from the word
+                // ((x >> 11) * 2^-53) land on, or within three grid steps of, a simple fraction - the sixths
+                // and twelfths of a hue circle, quarters, tenths - the other half are uniform
+                if self.state.next() % 2 == 0 {
+                    self.state.next()
+                } else {
+                    const L: [(u64, u64); 16] = [(1, 6), (2, 6), (3, 6), (4, 6), (5, 6), (1, 12), (5, 12), (7, 12), (11, 12), (1, 4), (3, 4), (1, 10), (9, 10), (1, 3), (2, 3), (1, 360)];
+                    let (a, b) = L[(self.state.next() % 16) as usize];
+                    let grid = ((a as f64 / b as f64) * 9007199254740992.0).round() as i64 + (self.state.next() % 7) as i64 - 3;
+                    (grid.clamp(0, 9007199254740991) as u64) << 11
+                }
+            }
             _ => self.state.next() >> (self.state.next() % 64),
         }
     }
@@ -253,7 +266,20 @@ pub fn tie_cases(s: &mut Session, ctx: &Ctx) {
                 for metric in [DistanceMetric::CIE76, DistanceMetric::CIEDE2000] {
                     for rep in 0..reps {
                         let base: Vec<Color> = (0..3).map(|_| gen::color8(&mut rng)).collect();
-                        let colors: Vec<Color> = pattern.iter().map(|&i| base[i].clone()).collect();
+                        // every other repetition: the "equal" colours are equal only as 8-bit values - HSL floats a
+                        // fraction of a step apart (fixed colours typed as hsl()/lab() are such)
+                        let colors: Vec<Color> = pattern
+                            .iter()
+                            .enumerate()
+                            .map(|(k, &i)| {
+                                if rep % 2 == 1 && k > 0 {
+                                    let h = base[i].to_hsla();
+                                    Color::from_hsla(h.h + rng.range(-0.05, 0.05), (h.s + rng.range(0.0, 0.002)).clamp(0.0, 1.0), (h.l + rng.range(-0.0008, 0.0008)).clamp(0.0, 1.0), 1.0)
+                                } else {
+                                    base[i].clone()
+                                }
+                            })
+                            .collect();
                         let num_fixed = [0usize, 0, 1, 2][rep % 4].min(colors.len());
                         let case = SaCase {
                             target,
